@@ -25,8 +25,12 @@ package lfsapi
 
 // The authentication/redirect cycle doWithAuth -> doWithCreds -> doWithAuth:
 // every turn must extend the redirect chain, which is cut at three requests.
+// C18: an Authorization header is taken off a request again only when git-lfs
+// itself had put it there from credentials of the helpers; a header that came
+// with the request (offered by a batch action, say) stays as it was offered.
 //@ func (*Client).doWithAuth
-//@   props C10
+//@   props C10 C18
+//@   at call (http.Header).Del:1 assert @C18 arg1__ == "Authorization" && credWrapper.Creds != nil
 //@   recgroup authredirect
 //@   requires len(via) <= 2
 //@   decreases 3 - len(via), 1
